@@ -282,6 +282,8 @@ Eval(e, st) ==
                 \* (text - also text marked safe - on either side makes it a concatenation of the printed forms; the mark does not survive)
                 [] e.op = "+"  -> IF ra.v.k \in {"str", "markup"} \/ rb.v.k \in {"str", "markup"} THEN R(S(StrOf(ra.v) \o StrOf(rb.v)), rb.st, FALSE)
                                   ELSE R(I(ra.v.n + rb.v.n), rb.st, FALSE)
+                [] e.op = "/"  -> IF rb.v.n = 0 THEN R(Nil, Fail(rb.st, "division by zero"), FALSE)           \* (non-negative integers only)
+                                  ELSE R(I(ra.v.n \div rb.v.n), rb.st, FALSE)
                 [] e.op = "in" -> R(B(CASE rb.v.k = "list" -> \E i \in 1..Len(rb.v.l) : ValEq(rb.v.l[i], ra.v)
                                         [] rb.v.k = "map" -> \E i \in 1..Len(rb.v.l) : rb.v.l[i].l[1] = ra.v
                                         [] OTHER -> FALSE), rb.st, FALSE)
